@@ -4,6 +4,7 @@ import (
 	"archive/tar"
 	"bytes"
 	"io"
+	"time"
 )
 
 // spec is one member as the generator wants it written.
@@ -14,6 +15,7 @@ type spec struct {
 	Data     []byte
 	Mode     int64
 	Format   tar.Format
+	MTime    int64 // seconds; 0 = the zero time archive/tar writes as 0
 }
 
 // member is one member as archive/tar's Reader decodes it: the input of the
@@ -23,13 +25,20 @@ type member struct {
 	Name string
 	Link string
 	Data []byte
+	// Header fields the view hands on, as the sequential Reader decodes them,
+	// and the size of the entry's segment by the independent layout.
+	HSize  int64
+	Seg    int64
+	Mode   int64
+	MTimeS int64
+	MTimeN int
 }
 
 // kindOf maps a typeflag to the model's class. ok is false for typeflags
 // findSegments does not emit a segment for.
 func kindOf(tf byte) (byte, bool) {
 	switch tf {
-	case tar.TypeReg, tar.TypeCont:
+	case tar.TypeReg, tar.TypeCont, tar.TypeGNUSparse:
 		return 'r', true
 	case tar.TypeDir:
 		return 'd', true
@@ -52,6 +61,9 @@ func writeArchive(ms []spec) ([]byte, int) {
 	dropped := 0
 	for _, m := range ms {
 		h := tar.Header{Name: m.Name, Linkname: m.Link, Typeflag: m.Typeflag, Mode: m.Mode, Format: m.Format}
+		if m.MTime != 0 {
+			h.ModTime = time.Unix(m.MTime, 0)
+		}
 		data := m.Data
 		switch m.Typeflag {
 		case tar.TypeReg, tar.TypeCont:
@@ -81,12 +93,16 @@ func writeArchive(ms []spec) ([]byte, int) {
 
 // decodeArchive reads the archive back sequentially.
 func decodeArchive(b []byte) ([]member, error) {
+	spans, err := layout(b)
+	if err != nil {
+		return nil, err
+	}
 	tr := tar.NewReader(bytes.NewReader(b))
 	var out []member
 	for {
 		h, err := tr.Next()
 		if err == io.EOF {
-			return out, nil
+			break
 		}
 		if err != nil {
 			return nil, err
@@ -102,6 +118,17 @@ func decodeArchive(b []byte) ([]member, error) {
 				return nil, err
 			}
 		}
-		out = append(out, member{Kind: k, Name: h.Name, Link: h.Linkname, Data: data})
+		if h.Mode < 0 || h.Size < 0 {
+			return nil, errLayout
+		}
+		out = append(out, member{Kind: k, Name: h.Name, Link: h.Linkname, Data: data,
+			HSize: h.Size, Mode: h.Mode, MTimeS: h.ModTime.Unix(), MTimeN: h.ModTime.Nanosecond()})
 	}
+	if len(spans) != len(out) {
+		return nil, errLayout
+	}
+	for i := range out {
+		out[i].Seg = spans[i].size
+	}
+	return out, nil
 }
